@@ -471,6 +471,25 @@ def r6_equality_symmetry(ctx, sym):
         ctx.check(got == want, 'R6', 'equality_test(%r,%r)' % (a, b), mod, fn,
                   "equality_test(%r, %r) is %s; the documented tolerance/normalisation makes it %s" % (a, b, got, want),
                   "assert_equal(%r, %r)" % (a, b))
+    # dictionary keys are compared like any other strings (normalised unless exact_strings): the values must then be
+    # looked up under the partner key, in either argument order
+    for a, b, exact, want in (({'Name': 1}, {'name': 1}, False, True), ({'Name': 1}, {'name': 2}, False, False),
+                              ({'A b': [1.0004]}, {'a  b': [1]}, False, True), ({'Name': 1}, {'name': 1}, True, False),
+                              ({'x': {'Inner': 'v'}}, {'x': {'inner': 'V'}}, False, True)):
+        for x, y in ((a, b), (b, a)):
+            fd = new_fd()
+            try:
+                got = bool(fd.call_function(fn, [x, y, exact, .001]))
+            except Raised as e:
+                got = 'raises ' + e.kind
+            except Inconclusive as e:
+                raise AnalysisError("C07 R6: equality_test outside the decidable fragment on %r: %s" % ((x, y), e))
+            ctx.check(got is want, 'R6', 'equality_test(%r,%r,exact_strings=%r):keys' % (x, y, exact), mod, fn,
+                      "equality_test(%r, %r, exact_strings=%r) %s; keys that are equal as strings under the requested "
+                      "comparison pair up, so the answer is %s" % (x, y, exact, got if isinstance(got, str) else
+                                                                  'is %s' % got, want),
+                      "assert_equal(%r, %r) and assert_not_equal on the same operands both pass silently (KeyError "
+                      "inside the condition)" % (x, y))
     # the non-default parameters must reach every nested comparison (exact strings, a custom delta)
     param_cases = []
     for wrap, label in ((lambda v: v, 'scalar'), (lambda v: [v], 'list'), (lambda v: (v,), 'tuple'),
@@ -787,11 +806,74 @@ def r11_documented_options(ctx, sym):
     ctx.floor('R11', 'assertion x option cells', n, 150)
 
 
+def r12_documented_delta(ctx, sym, eq_fn_runner):
+    ctx.rule('R12', "the documented delta of the equality family (a number, or None for the default .001): the "
+                    "assertion's constructor and condition are executed abstractly with delta=None / omitted / 0.1 "
+                    "on floats inside and outside the tolerance; equality_test is the real one (interpreted)")
+    from .. import symexec
+    rmod = ctx.repo.module(RUNTIME)
+    for cls_name, positive in EQUALITY:
+        ci = sym.find_class(RUNTIME, cls_name)
+        init = sym.method(ci, '__init__')
+        cond = sym.method(ci, 'condition')
+        if init is None or cond is None:
+            raise AnalysisError("anchor vanished: %s.__init__/condition" % cls_name)
+        for delta_kw, tol in (({'delta': None}, .001), ({}, .001), ({'delta': .1}, .1)):
+            for left, right in ((1.0, 1.0 + tol / 2), (1.0, 1.0 + tol * 3)):
+                rec = symexec.Recorder()
+                sup = Obj('super')
+                symexec.method(sup, '__init__', rec.stub('super().__init__'))
+                me = symexec.self_obj(init[0].module, cls_name, fields={})
+                fd = symexec.new_fd(sym, init[0].module, calls={
+                    'super': lambda *a: sup, 'SandboxedValue': lambda v, *a: boxed(v), 'ExactValue': lambda v, *a: boxed(v)})
+                _, raised = symexec.run(fd, init[1], [left, right], dict(delta_kw), bound_self=me,
+                                        what=cls_name + '.__init__')
+                built = rec.named('super().__init__')
+                if raised is not None or len(built) != 1:
+                    raise AnalysisError("C07 R12: %s.__init__ did not reach the wrapper once" % cls_name)
+                args, kwargs = built[0][1], built[0][2]
+                params = [a.arg for a in cond[1].args.args][1:]
+                call_kwargs = {k: v for k, v in kwargs.items() if k in params}
+                outcome = eq_fn_runner(cond[1], list(args), call_kwargs, me)
+                holds = abs(left - right) < tol
+                want = ('silent' if holds else 'fires') if positive else ('fires' if holds else 'silent')
+                ctx.check(outcome == want, 'R12', '%s(%r,%r,%s)' % (cls_name, left, right, ', '.join(
+                    '%s=%r' % kv for kv in delta_kw.items()) or 'default delta'), cond[0].module, cond[1],
+                          "%s(%r, %r%s) %s; with the documented tolerance %r the relation %s, so it must be %s" % (
+                              cls_name, left, right, ''.join(', %s=%r' % kv for kv in delta_kw.items()), outcome, tol,
+                              'holds' if holds else 'does not hold', want),
+                          "assert_equal(1.0, 2.0, delta=None) passes silently: TypeError ('<' with None) inside the "
+                          "condition although the documentation says None selects the default")
+
+
 def run(ctx):
     sym = Symbols(ctx.repo)
     h = Harness(ctx, sym)
     r10_output_family(ctx, sym)
     r11_documented_options(ctx, sym)
+
+    def run_condition(cond_fn, args, kwargs, me):
+        import numbers
+        import string as _string
+        from .. import symexec
+        table = str.maketrans(_string.punctuation, ' ' * len(_string.punctuation))
+        extra = {'Number': numbers.Number, 'LIST_GENERATOR_TYPES': (type(map(bool, [])), type(range(0))),
+                 'SET_GENERATOR_TYPES': (type({}.keys()), type({}.values()), type({}.items())),
+                 'float': float, 'int': int, 'str': str, 'bytes': bytes, 'list': list, 'tuple': tuple, 'set': set,
+                 'frozenset': frozenset, 'dict': dict}
+        fd = symexec.new_fd(sym, ctx.repo.module(RUNTIME), calls={
+            'isinstance': lambda o, t: isinstance(o, t) if not isinstance(o, Obj) else False,
+            'is_dataclass': lambda v: False, 'abs': abs, 'len': len, 'type': type,
+            'strip_punctuation': lambda s_: s_.translate(table)}, extra=extra)
+        try:
+            got = fd.call_function(cond_fn, args, kwargs, bound_self=me)
+        except Raised as e:
+            return 'raises %s inside the condition (swallowed by the wrapper: a silent pass)' % e.kind
+        except Inconclusive as e:
+            raise AnalysisError("C07 R12: condition outside the decidable fragment: %s" % e)
+        t = truth(got)
+        return 'fires' if t else 'silent'
+    r12_documented_delta(ctx, sym, run_condition)
     outcomes = r_tables(ctx, sym, h)
     r2_pairs(ctx, sym, h, outcomes)
     r_equality_family(ctx, sym, h)
